@@ -67,7 +67,7 @@ def model_stage(spec: PureSpec, tier):
     return m
 
 
-def run_pure(spec: PureSpec, tier: str, only_cases=None) -> int:
+def run_pure(spec: PureSpec, tier: str, only_cases=None, evidence_suffix="", owned=None) -> int:
     t = common.Timer()
     common.setup_env()
     prop = spec.prop
@@ -107,11 +107,15 @@ def run_pure(spec: PureSpec, tier: str, only_cases=None) -> int:
     findings = common.Findings()
     nviol = 0
     viol_by_clause = Counter()
+    foreign = Counter()
     for c in cases:
         if c["id"] not in rejects:
             continue
         unknown = []
         for clause in rejects[c["id"]]:
+            if owned is not None and clause not in owned:
+                foreign[clause] += 1
+                continue
             if findings.match(prop, clause, c) is None:
                 unknown.append(clause)
         if unknown:
@@ -122,6 +126,8 @@ def run_pure(spec: PureSpec, tier: str, only_cases=None) -> int:
                 path = common.write_replay(prop, nviol, {"property": prop, "module": spec.module, "failing_clauses": unknown, "case": c})
                 print("VIOLATION property=%s replay=%s clauses=%s" % (prop, path, ",".join(unknown)))
     findings.report()
+    for cl, n in foreign.items():
+        print("FOREIGN-REJECTION clause=%s count=%d (owned by another property's check of the same module, not a verdict for %s)" % (cl, n, prop))
     if nviol > 10:
         print("... %d further rejected calls not listed; by clause: %s" % (nviol - 10, dict(viol_by_clause)))
     nontrivial = set()
@@ -142,7 +148,7 @@ def run_pure(spec: PureSpec, tier: str, only_cases=None) -> int:
         "spec_modules": spec.spec_files, "config": spec.cfg[tier], "note": spec.invariants_note,
     }
     if only_cases is None:
-        common.write_evidence(prop, tier, cov, t(), nviol, spec.assumptions)
+        common.write_evidence(prop + evidence_suffix, tier, cov, t(), nviol, spec.assumptions)
     print("%s %s: model %d states (%s), %d calls replayed, %d rejected (%d known), %d violations, %.1fs" % (
         prop, tier, model["distinct"], "cached" if model.get("cached") else "%.0fs" % model["wall"], len(cases), len(rejects), len(rejects) - nviol, nviol, t()))
     return 1 if nviol else 0
@@ -179,3 +185,31 @@ def selftest_pure(spec: PureSpec, tier="quick") -> int:
     if not ok:
         print("SELFTEST-FAILED %s blind_kinds=%s" % (spec.prop, blind))
     return 0 if ok else 2
+
+
+def merge_evidence(prop, parts):
+    """Combine the evidence files of several stages of one property into /verif/evidence/<prop>.json"""
+    import os
+    docs = []
+    for p in parts:
+        path = os.path.join(common.EVID, p + ".json")
+        docs.append(json.load(open(path)))
+        if p != prop:
+            os.remove(path)
+    base = docs[0]
+    cov = base["coverage"]
+    cov["stages"] = []
+    for d in docs:
+        c = d["coverage"]
+        cov["stages"].append({"module": c["spec_modules"], "states": c["states"], "transitions": c["transitions"], "calls": c["traces_validated_against_impl"],
+                              "distinct_nontrivial": c["distinct_nontrivial"], "rejected": c["rejected_calls"], "rule": c["rule"]})
+    for d in docs[1:]:
+        c = d["coverage"]
+        for k in ("states", "transitions", "traces_validated_against_impl", "evaluations", "distinct_nontrivial"):
+            cov[k] += c[k]
+        cov["samples"] += c["samples"][:2]
+        base["assumptions"] += [a for a in d["assumptions"] if a not in base["assumptions"]]
+        base["wall_s"] += d["wall_s"]
+        base["violations"] += d["violations"]
+    base["property_id"] = prop
+    common.write_evidence(prop, base["tier"], cov, base["wall_s"], base["violations"], base["assumptions"])
